@@ -94,6 +94,8 @@ def abs_items(spec):
     for c, p, on, ln, v in spec.get("notes", []):
         items.append((on, c, TYPE_ORDER["on"], p, "on", (c, p, v)))
         items.append((on + ln, c, TYPE_ORDER["off"], p, "off", (c, p)))
+    for c, p, on, v in spec.get("hanging", []):
+        items.append((on, c, TYPE_ORDER["on"], p, "on", (c, p, v)))       # a note-on that is never released (ill-formed, legal)
     for e in spec.get("extra", []):
         k = e[0]
         if k == "cc":
